@@ -517,3 +517,17 @@ PLANS['C13']['thorough'] = PLANS['C13']['thorough'] + [PROTO_HOLES_Q]
 
 PLANS['C12']['quick'] = PLANS['C12']['quick'] + [PRINT_Q]
 PLANS['C12']['thorough'] = PLANS['C12']['thorough'] + [PRINT_Q]
+
+
+# ---- deeper scenarios, thorough tier only
+DEEP_OPS_T = dict(scenario='block_expr', args=dict(policy=expr_profile([['Bin', 'Call', 'Tpl', 'Assign'], ['Bin', 'Call', 'Tpl', 'Assign', 'Ident', 'Member'], ['Bin', 'Call', 'Ident', 'Lit'], ['Ident']], max_args=(2, 1, 1, 0), props=['substring'], names=['a'], bin_ops=['Add'], assign_ops=['AddAssign'], op_budget=5, spread=False)),
+                  label='operations nested three deep (+, +=, template, call around +, +=, template, call, member around +/call), <= 5 non-leaf nodes, depth 4, one name, one method')
+TWO_STMTS_T = dict(scenario='program', args=dict(policy=stmt_profile([['Block', 'Decl:Fn'], ['Expr', 'Decl:Var', 'Return'], ['Expr']], [['Bin', 'Call', 'Assign', 'Ident'], ['Ident', 'Call'], ['Ident']], bin_ops=['Add'], assign_ops=['AddAssign'], names=['a'], props=['substring'], params=(0,), block_lens=(2, 3), fn_body_lens=(2, 3), max_args=(1, 0, 0), op_budget=4, all_present=True), kinds=('Script',)),
+                   label='blocks / function bodies of 2-3 statements (expression statement / declaration / return), several of them holding operations that need temporaries (numbering and declaration across statements, count independent of statement order)')
+NESTED_FN_T = dict(scenario='program', args=dict(policy=stmt_profile([['Decl:Fn'], ['Decl:Fn', 'Return'], ['Decl:Fn', 'Return'], ['Return']], [['Bin', 'Ident'], ['Ident', 'Call'], ['Ident']], bin_ops=['Add'], names=['a'], params=(0,), block_lens=(1, 2), fn_body_lens=(1, 2), op_budget=4, all_present=True), kinds=('Script',)),
+                   label='function declarations nested three deep, operations needing temporaries at every level: each `let` belongs to the innermost enclosing function body')
+
+for p in ('C01', 'C02', 'C03', 'C06', 'C15'):
+    PLANS[p]['thorough'] = PLANS[p]['thorough'] + [DEEP_OPS_T]
+for p in ('C02', 'C04', 'C06', 'C12', 'C15'):
+    PLANS[p]['thorough'] = PLANS[p]['thorough'] + [TWO_STMTS_T, NESTED_FN_T]
